@@ -3,11 +3,14 @@
    Z, positive, nat stay the extracted inductive types; no Extract Constant. *)
 From Coq Require Extraction ExtrOcamlBasic.
 From SV Require Import Lib.Base Model.WireBase Model.WireSixFrag Model.WireNhc Model.WireIphc.
+From SV Require Import Model.Assembler Model.LowpanFrag Model.Lowpan.
 Extraction Language OCaml.
 Cd "../ocaml/gen".
 Extraction "lowpan_model.ml"
   sixfrag_emit sixfrag_parse sixfrag_new_checked sixfrag_payload sixfrag_buffer_len sixlowpan_dispatch
   nhc_dispatch nhc_udp_emit nhc_udp_parse nhc_udp_check_len nhc_udp_checksum nhc_udp_payload
   nhc_udp_header_len nhc_udp_src_port nhc_udp_dst_port
-  iphc_emit iphc_buffer_len iphc_parse iphc_check_len iphc_header_len iphc_payload.
+  iphc_emit iphc_buffer_len iphc_parse iphc_check_len iphc_header_len iphc_payload
+  lp_dispatch lp_process_sixlowpan lp_dgram_of_bytes lp_ipv6_bytes lpf_slots_new lpf_remove_expired lpf_ieee_len
+  lpf_frame_len sixfrag_bytes_of.
 Cd "../../coq".
